@@ -22,8 +22,10 @@ PROPS["C06"] = {
 PROPS["C07"] = {
     "pkg": "c07", "level": "exploration",
     "jobs": {
-        "quick": [{"name": "merge", "run": "^TestMergeArrangements$", "checks": 20000, "shards": 8}],
-        "thorough": [{"name": "merge", "run": "^TestMergeArrangements$", "checks": 640000, "shards": 16, "timeout": 1700}],
+        "quick": [{"name": "probes", "kind": "plain", "run": "^TestProbe"},
+                  {"name": "merge", "run": "^TestMergeArrangements$", "checks": 20000, "shards": 8}],
+        "thorough": [{"name": "probes", "kind": "plain", "run": "^TestProbe"},
+                     {"name": "merge", "run": "^TestMergeArrangements$", "checks": 640000, "shards": 16, "timeout": 1700}],
     },
     "assumptions": [
         "gauge ties: when several datapoints carry the newest timestamp any of their values is accepted",
@@ -358,14 +360,14 @@ PROPS["C19"] = {
             {"name": "probes", "kind": "plain", "run": "^TestProbe"},
             {"name": "pipeline", "run": "^TestEventsThroughPipeline$", "checks": 9600, "shards": 8},
             {"name": "gated", "run": "^TestWaitForEventsGated$", "checks": 1920, "shards": 8},
-            {"name": "forwarder", "run": "^TestEventsForwarderMode$", "checks": 4800, "shards": 4},
+            {"name": "forwarder", "run": "^TestEventsForwarderMode$", "checks": 1600, "shards": 8},
         ],
         "thorough": [
             {"name": "probes", "kind": "plain", "run": "^TestProbe"},
             {"name": "pipeline", "run": "^TestEventsThroughPipeline$", "checks": 160000, "shards": 8, "timeout": 1700},
             {"name": "pipeline-race", "run": "^TestEventsThroughPipeline$", "checks": 8000, "shards": 4, "race": True, "timeout": 1700},
             {"name": "gated", "run": "^TestWaitForEventsGated$", "checks": 16000, "shards": 8, "timeout": 1700},
-            {"name": "forwarder", "run": "^TestEventsForwarderMode$", "checks": 80000, "shards": 4, "timeout": 1700},
+            {"name": "forwarder", "run": "^TestEventsForwarderMode$", "checks": 40000, "shards": 16, "timeout": 1700},
         ],
     },
     "assumptions": [
